@@ -36,16 +36,16 @@ def run_seq(ctx, binp, q, keyfn, want_prefix):
         # H1Conn.tla LastCases: the response after which the proxy closes, and what the client has sent meanwhile
         if not last:
             raise vlib.Infra("H1Conn printed no lastCases")
-        cases = sorted(last[0]["lastCases"], key=lambda c: (c["up"], c["next"]))
+        cases = sorted(last[0]["lastCases"], key=lambda c: (c["route"], c["up"], c["next"]))
         out = ctx.run_vh(binp, ["h1-last"], cases=cases, timeout=1200)
         out, crashed = ctx.nocrash(out, "C02:crash")
         if not crashed and len(out) != len(cases):
             raise vlib.Infra("h1-last: %d results for %d cases" % (len(out), len(cases)))
         for r in out:
             ctx.evaluations += 1
-            ctx.nontrivial.add("last:%s:%s" % (r["c"]["up"], r["c"]["next"]))
+            ctx.nontrivial.add("last:%s:%s:%s" % (r["c"]["route"], r["c"]["up"], r["c"]["next"]))
             if not r["ok"]:
-                ctx.violation("C02:last-response-cut:%s:%s" % (r["c"]["up"], r["c"]["next"]), r)
+                ctx.violation("C02:last-response-%s:%s:%s" % ("unsigned-end:mitm" if r["c"]["route"] == "mitm" and "close_notify" in r.get("why", "") else "cut", r["c"]["up"], r["c"]["next"]), r)
             else:
                 ctx.traces_ok += 1
     out = ctx.run_vh(binp, ["h1-seq"], cases=recs, timeout=3000)
